@@ -43,6 +43,13 @@ type num struct{ k int }
 
 func (n num) Get(x int) int { return n.k + x }
 func mk() num                { return num{1} }
+
+type tally struct{ n int }
+
+func (t *tally) Bump() int     { t.n++; return t.n }
+func (t tally) Val() int       { return t.n }
+func (t *tally) Add(k int) int { t.n += k; return t.n }
+
 func id[T any](x T) T        { return x }
 func conv[A, B any](b B) A   { var a A; _ = b; return a }
 func dbl(x int) int          { return 2 * x }
@@ -203,6 +210,11 @@ func k11(args []string) {
 		// a variadic closure: spread call or the slice as one argument (the types agree in both)
 		{Req: "(k11 declared same sametype)", Code: "func(xs ...any) int { return cnt(xs...) }"},
 		{Req: "(k11 declared nonident sametype)", Code: "func(xs ...any) int { return cnt(xs) }"},
+		// the closure's first parameter is the receiver: no eta redex (T.M / (*T).M would be another function)
+		{Req: "(k11 method-uservar fewer sametype)", Code: "func(x tally) int { return x.Bump() }"},
+		{Req: "(k11 method-uservar fewer sametype)", Code: "func(x tally) int { return x.Val() }"},
+		{Req: "(k11 method-uservar fewer sametype)", Code: "func(p *tally) int { return p.Bump() }"},
+		{Req: "(k11 method-uservar fewer sametype)", Code: "func(p *tally, k int) int { return p.Add(k) }"},
 		// receivers of the iterator type that are not generated variables
 		{Req: "(k11 method-expr same sametype)", Code: "func() bool { return open().MoveNext() }"},
 		{Req: "(k11 method-uservar same sametype)", Code: "func() bool { return it.MoveNext() }"},
